@@ -92,6 +92,8 @@ def run(R):
                     cfg.fmt_path(p) if p else None)
     R.require_min("C10.GUARD", 4)
     R.require_min("C10.OWN", 6)
+    # whatever exception a future is completed with can be stored and handed on (no C-level narrowing of the slots it passes)
+    common.exception_slot_types(R, "C10.ERR-TYPE", ("futures.FutureBase", "async_task.AsyncTask", "batching.BatchBase", "batching.BatchItemBase"))
 
     # ---- CONSISTENT pairs
     def stores_in(f, attr):
